@@ -46,19 +46,34 @@ package pogreb
 //@     decreases i + 1
 
 // DB.Compact: sequential protocol. The maintenance lock is held for the whole run (Backup takes the same lock, so the
-// two never overlap) and every compact() call is made on a segment that is still in the table: the picked segments
-// are pairwise distinct, and compacting one leaves the others in place. The count it reports is the number of
-// compact() calls that returned nil. What writers do between two compact() calls is not decided.
+// two never overlap). The segments are picked AND SEALED in one critical section of the database lock (defect D9: they
+// used to be sealed one by one, each when its own compaction started, so a Delete acknowledged in between could land
+// in a picked segment and its delete record was dropped although older segments were not compacted): sealed segments
+// are never written (writeRecord, sealed-untouched), so what pickForCompaction established about delete records
+// stays true until each segment is compacted. Every compact() call is made on a segment that is still in the table:
+// the picked segments are pairwise distinct, and compacting one leaves the others in place. The count it reports is
+// the number of compact() calls that returned nil. What writers do between two compact() calls is not decided.
 //@ func (db *DB) Compact() (cr CompactionResult, err error) [C05,C12,C15]
 //@   requires inv: dbFull(db)
 //@   requires unlocked: lockSt[fieldaddr(db, mu)] == 0 && lockSt[fieldaddr(db, maintenanceMu)] == 0
 //@   ensures inv: err == nil ==> dbFull(db)
 //@   ensures unlocked: lockSt[fieldaddr(db, mu)] == 0 && lockSt[fieldaddr(db, maintenanceMu)] == 0
+//@   at call Unlock@1: assert [C05] picked-sealed-before-unlock: forall q int :: off(segments) <= q && q < off(segments) + len(segments) ==> contents(segments)[q].meta.Full
+// (the same demand on a version that picks under the read lock, as the code did before the repair of D9)
+//@   at call RUnlock@1: assert [C05] picked-sealed-before-unlock: forall q int :: off(segments) <= q && q < off(segments) + len(segments) ==> contents(segments)[q].meta.Full
 //@   at call compact@1: assert [C12,C15] maintenance-lock-held: lockSt[fieldaddr(db, maintenanceMu)] == 2
 //@   at return: assert [C15] reports-what-it-compacted: err == nil && cr.CompactedSegments != 0 ==> cr.CompactedSegments == len(segments)
 //@   modifies *
 //@   loop 1:
-//@     invariant db == old(db) && dbFull(db) && lockSt[fieldaddr(db, mu)] == 0 && lockSt[fieldaddr(db, maintenanceMu)] == 2
-//@     invariant -1 <= rangeindex#1 && rangeindex#1 < len(segments) && cr.CompactedSegments == rangeindex#1 + 1
-//@     invariant forall q int :: off(segments) + rangeindex#1 < q && q < off(segments) + len(segments) ==> contents(segments)[q] != nil && contents(segments)[q].id < 32767 && db.datalog.segments[contents(segments)[q].id] == contents(segments)[q]
+//@     invariant db == old(db) && dbFull(db) && lockSt[fieldaddr(db, mu)] == 2 && lockSt[fieldaddr(db, maintenanceMu)] == 2
+//@     invariant -1 <= rangeindex#1 && rangeindex#1 < len(segments) && len(segments) >= 0 && cr.CompactedSegments == 0
+//@     invariant forall q int :: off(segments) <= q && q < off(segments) + len(segments) ==> contents(segments)[q] != nil && contents(segments)[q].id < 32767 && db.datalog.segments[contents(segments)[q].id] == contents(segments)[q]
 //@     invariant forall q1 int, q2 int :: off(segments) <= q1 && q1 < q2 && q2 < off(segments) + len(segments) ==> contents(segments)[q1] != contents(segments)[q2]
+//@     invariant forall q int :: off(segments) <= q && q <= off(segments) + rangeindex#1 ==> contents(segments)[q].meta.Full
+//@     modifies any(segmentMeta).Full
+//@   loop 2:
+//@     invariant db == old(db) && dbFull(db) && lockSt[fieldaddr(db, mu)] == 0 && lockSt[fieldaddr(db, maintenanceMu)] == 2
+//@     invariant -1 <= rangeindex#2 && rangeindex#2 < len(segments) && cr.CompactedSegments == rangeindex#2 + 1
+//@     invariant forall q int :: off(segments) + rangeindex#2 < q && q < off(segments) + len(segments) ==> contents(segments)[q] != nil && contents(segments)[q].id < 32767 && db.datalog.segments[contents(segments)[q].id] == contents(segments)[q]
+//@     invariant forall q1 int, q2 int :: off(segments) <= q1 && q1 < q2 && q2 < off(segments) + len(segments) ==> contents(segments)[q1] != contents(segments)[q2]
+//@     invariant [C05] forall q int :: off(segments) + rangeindex#2 < q && q < off(segments) + len(segments) ==> contents(segments)[q].meta.Full
